@@ -38,7 +38,8 @@
 (*                       not a nil dereference in go-did [F5-C09-vm-null-  *)
 (*                       referenced]                                       *)
 (*   LaxDefects = {}     methods embedded in a verification relationship   *)
-(*                       obey the same id rules as verificationMethod [F20-C09]*)
+(*                       obey the same id rules as verificationMethod [F20-C09,*)
+(*                       repaired in the code: {} everywhere]              *)
 (***************************************************************************)
 EXTENDS Naturals, FiniteSets, Sequences, TLC
 
